@@ -333,7 +333,18 @@ def l9(ctx):
                             (d.d['stmt'].table or '').lower() == 'cache':
                         dp = d.d.get('params')
                         same = dp is not None and not isinstance(dp, V) and len(dp) == 1 and dp[0] == rowids[0]
-                        if not same:
+                        # ... or a DELETE of exactly one other row (WHERE rowid = <another selected rowid>) that the path
+                        # has established to be a different row
+                        other = False
+                        w = d.d['stmt'].where
+                        if not same and dp is not None and not isinstance(dp, V) and len(dp) == 1 and w is not None \
+                                and w[0] == 'cmp' and w[1] == '=' and dp[0].k == 'col' and dp[0].a[1] == 'rowid':
+                            for t in tr[:d.seq]:
+                                if t.kind == 'TEST' and t.d['val'].k == 'cmp' and t.d['val'].a[0] in (('Eq',), ('NotEq',), ('Is',), ('IsNot',)) \
+                                        and set(t.d['val'].a[1]) == {dp[0], rowids[0]}:
+                                    differs = t.d['truth'] if t.d['val'].a[0][0] in ('NotEq', 'IsNot') else not t.d['truth']
+                                    other = other or differs
+                        if not same and not other:
                             info['ok'] = False
                             info['wit'] = info['wit'] or fmt_trace(tr)
     obs = []
